@@ -20,6 +20,8 @@ pub struct MyRSI<T, V> {
     q_vals: VecDeque<T>,
     last_val: T,
     oldest_val: T,
+    // number of most recent consecutive values that are equal to the newest one.
+    run_len: usize,
 }
 
 impl<T, V> MyRSI<T, V>
@@ -38,6 +40,7 @@ where
             q_vals: VecDeque::with_capacity(window_len),
             last_val: T::zero(),
             oldest_val: T::zero(),
+            run_len: 0,
         }
     }
 }
@@ -57,6 +60,11 @@ where
             self.oldest_val = val;
             self.last_val = val;
         }
+        if self.q_vals.back() == Some(&val) {
+            self.run_len += 1;
+        } else {
+            self.run_len = 1;
+        }
         if self.q_vals.len() >= self.window_len {
             let old_val = self.q_vals.pop_front().unwrap();
             if old_val > self.oldest_val {
@@ -75,6 +83,11 @@ where
             self.cd = self.cd + self.last_val - val;
         }
         self.last_val = val;
+        if self.run_len >= self.q_vals.len() && self.oldest_val == val {
+            // No change inside the window: drop the rounding residue of the changes that left.
+            self.cu = T::zero();
+            self.cd = T::zero();
+        }
 
         if self.cu + self.cd != T::zero() {
             self.out = (self.cu - self.cd) / (self.cu + self.cd);
